@@ -131,6 +131,106 @@ def run [Zero α] : List Op → Mat α → Option (Mat α)
 
 end Mat
 
+/-! ### abort freedom: the exact per-step precondition, and the failure classes of the code as it is -/
+
+/-- why one operation of the real code does not yield a container -/
+inductive Fail where
+  | abortD6        -- CSR::convert(CSCR): CSCR matrix with an empty row / without entries (assertion; open finding D6)
+  | abortD7        -- Banded::convert(CSR): CSR matrix without entries (assertion; open finding D7)
+  | abortPermSize  -- permute: a permutation whose size is not the matrix dimension (specified assertion)
+  | crashD1        -- CSR::permute on a matrix without entries (null row_ptr; open finding D1)
+  | crashD3        -- CSCR::convert(CSR) of a matrix without entries and with rows (null row_ptr; open finding D3)
+  | abortD3        -- … with 0 rows: the CSCR array constructor asserts non-empty arrays (same finding D3)
+  | crashD5        -- Graph(as_is, csr) of a matrix without entries and with rows (std::out_of_range; open finding D5)
+  | notApplicable  -- the format has no such member
+  deriving DecidableEq, Repr
+
+namespace Mat
+variable {α : Type}
+
+/-- the failure class of `m.op`, read off the operand alone (format, emptiness, sizes): `none` = the operation
+    yields a container -/
+def failure (m : Mat α) : Op → Option Fail
+  | .tocsr =>
+    match m with
+    | .cscr B => if B.usedElements = 0 ∨ B.usedRows < B.rows then some .abortD6 else none
+    | .dense _ => some .notApplicable
+    | _ => none
+  | .tobanded =>
+    match m with
+    | .csr A => if A.usedElements = 0 then some .abortD7 else none
+    | .banded _ => none
+    | _ => some .notApplicable
+  | .tocscr =>
+    match m with
+    | .csr A => if A.usedElements = 0 then (if A.rows = 0 then some .abortD3 else some .crashD3) else none
+    | .cscr _ => none
+    | _ => some .notApplicable
+  | .clone _ => none
+  | .layout =>
+    match m with
+    | .dense _ => some .notApplicable
+    | _ => none
+  | .graph =>
+    match m with
+    | .csr A => if A.usedElements = 0 ∧ 0 < A.rows then some .crashD5 else none
+    | _ => some .notApplicable
+  | .tr =>
+    match m with
+    | .csr _ | .dense _ | .bcsr _ => none
+    | _ => some .notApplicable
+  | .tri =>
+    match m with
+    | .csr _ | .dense _ => none
+    | _ => some .notApplicable
+  | .perm p q =>
+    match m with
+    | .csr A =>
+      if p.size = 0 ∧ q.size = 0 then none
+      else if p.size ≠ A.rows ∨ q.size ≠ A.cols then some .abortPermSize
+      else if A.usedElements = 0 then some .crashD1
+      else none
+    | _ => some .notApplicable
+  | .it => none
+  | .dt =>
+    match m with
+    | .csr _ | .dense _ | .banded _ => none
+    | _ => some .notApplicable
+
+/-- the exact decidable precondition of one step -/
+def pre (m : Mat α) (o : Op) : Bool := (m.failure o).isNone
+
+end Mat
+
+/-- outcome of one operation of the code as it is: like `Res`, plus the crashes of the open findings D1 / D3 / D5,
+    where `Mat.step` shows the intended result instead -/
+inductive ResC (α : Type) where
+  | ok (m : Mat α)
+  | abort
+  | crash
+  | bad
+
+namespace Mat
+variable {α : Type}
+
+def stepCode [Zero α] (m : Mat α) (o : Op) : ResC α :=
+  match m.failure o with
+  | some .crashD1 | some .crashD3 | some .crashD5 => .crash
+  | some .abortD3 => .abort
+  | _ => match m.step o with
+    | .ok m' => .ok m'
+    | .abort => .abort
+    | .bad => .bad
+
+/-- the conjunction of the per-step preconditions along the run -/
+def runPre [Zero α] : List Op → Mat α → Bool
+  | [], _ => true
+  | o :: os, m => m.pre o && (match m.step o with
+    | .ok m' => runPre os m'
+    | _ => false)
+
+end Mat
+
 /-- the textbook meaning of a chain on (rows, cols, dense matrix) -/
 structure Sem (α : Type) where
   rows : Nat
